@@ -97,10 +97,10 @@ def conc_oracle(h, i, line, impl, orc):
 
 PROPS = {
     "C01": dict(kind="v1hist", quick_n=1500, thorough_n=16000,
-                profile=Profile(p_hash_read=0.0, check_all_versions=0.5, iters=0.3, big=0.05),
+                profile=Profile(p_huge=0.006, p_unloaded=0.15, p_hash_read=0.0, check_all_versions=0.5, iters=0.3, big=0.05, p_load_old=0.12, p_save_existing=0.8),
                 title="versioned key-value semantics"),
     "C02": dict(kind="v1hist", quick_n=1500, thorough_n=16000,
-                profile=Profile(p_hash_read=0.9, proofs=0.3, iters=0.2, exports=0.0, check_all_versions=0.4, p_churn=0.15,
+                profile=Profile(p_hash_read=0.9, proofs=0.3, iters=0.2, exports=0.0, check_all_versions=0.4, p_churn=0.15, p_load_old=0.15, p_save_existing=0.8,
                                 big=0.05, imm_reads=["hash", "hash", "get", "iterate"]),
                 title="canonical root hash"),
     "C03": dict(kind="v1hist", quick_n=800, thorough_n=10000, oracle=proof_oracle, icsverify=True,
@@ -113,7 +113,7 @@ PROPS = {
                                 p_loadow=0.12, p_delfrom=0.05, p_hash_read=0.0),
                 title="fast index coherence"),
     "C09": dict(kind="v1hist", quick_n=1500, thorough_n=24000,
-                profile=Profile(p_loadow=0.3, p_delfrom=0.1, p_rollback=0.3, p_reopen=0.2, check_all_versions=0.5,
+                profile=Profile(p_huge=0.006, p_loadow=0.3, p_delfrom=0.1, p_rollback=0.3, p_reopen=0.2, check_all_versions=0.5,
                                 p_hash_read=0.5, iters=0.2),
                 title="rollback erases the future"),
     "C04": dict(kind="v1hist", quick_n=1500, thorough_n=24000,
@@ -174,7 +174,7 @@ PROPS = {
     "C06": dict(kind="v1hist", quick_n=1000, thorough_n=24000, mode="conc", gen="conc", oracle=conc_oracle, profile=None, stress=True,
                 title="concurrent readers"),
     "C14": dict(kind="v1hist", quick_n=1500, thorough_n=16000,
-                profile=Profile(p_hold=0.3, meta_per_version=(2, 5), p_load_old=0.25, p_prune=0.3, p_reopen=0.25,
+                profile=Profile(p_unloaded=0.15, p_hold=0.3, meta_per_version=(2, 5), p_load_old=0.25, p_prune=0.3, p_reopen=0.25,
                                 check_all_versions=0.2, p_noop_version=0.35),
                 title="version bookkeeping"),
 }
